@@ -134,3 +134,21 @@ def value_node_ok(n: 'YNode', v: 'PV') -> bool:
     if pv_is_node(v):
         return n == pv_node(v)
     return False
+
+
+def scalar_text(v: 'PV') -> str:
+    """the text set_value documents for a scalar value"""
+    if pv_is_str(v):
+        return pv_str(v)
+    if pv_is_bool(v):
+        return 'true' if pv_bool(v) else 'false'
+    if pv_is_int(v):
+        return str_of_int(pv_int(v))
+    if pv_is_float(v):
+        return str_of_float(pv_float(v))
+    return 'None'
+
+
+def has_scalar_core_tag(n: 'YNode') -> bool:
+    return (n.tag == STR_TAG or n.tag == INT_TAG or n.tag == FLOAT_TAG
+            or n.tag == BOOL_TAG or n.tag == NULL_TAG)
